@@ -8,6 +8,7 @@ import (
 	"fmt"
 	"net"
 	"net/http"
+	"os"
 	"strings"
 	"time"
 
@@ -31,6 +32,8 @@ type c11poison struct {
 var c11Poisons = []c11poison{
 	{"fn-panic-string", nil, "service"}, {"fn-panic-error", nil, "service"}, {"fn-panic-int", nil, "service"},
 	{"fn-panic-struct", nil, "service"}, {"fn-panic-runtime", nil, "service"}, {"fn-panic-nil", nil, "service"},
+	{"fn-panic-typed-nil-error", nil, "service"}, {"fn-panic-error-whose-Error-panics", nil, "service"}, {"fn-panic-stringer-that-panics", nil, "service"},
+	{"raw-call-then-bad-frame", []string{"socket"}, "service"}, {"raw-call-then-close", []string{"socket", "websocket"}, "service"},
 	{"missing-panic", nil, "service"}, {"invoke-plugin-panic", nil, "service"}, {"io-plugin-panic", nil, "service"},
 	{"timeout-wrapped-panic", nil, "service"},
 	{"arg-type-mismatch", nil, "service"}, {"fewer-args", nil, "service"}, {"more-args", nil, "service"},
@@ -49,6 +52,14 @@ var c11Poisons = []c11poison{
 
 type c11panicStruct struct{ A, B int }
 
+type c11err struct{ msg string }
+
+func (e *c11err) Error() string { return e.msg } // panics on a nil receiver
+
+type c11badStringer struct{}
+
+func (c11badStringer) String() string { panic("String() panics too") }
+
 func c11boom(k int) {
 	switch k {
 	case 0:
@@ -64,6 +75,13 @@ func c11boom(k int) {
 		m["x"] = 1
 	case 5:
 		panic(nil)
+	case 6:
+		var e *c11err
+		panic(e)
+	case 7:
+		panic(&os.PathError{})
+	case 8:
+		panic(c11badStringer{})
 	}
 }
 
@@ -114,6 +132,12 @@ func scenC11(r *Run) {
 	service.AddFunction(func(x int) int { return x + 1 }, "ok")
 	service.AddFunction(func(k int) int { c11boom(k); return k }, "boom")
 	service.AddFunction(func(n int) string { return strings.Repeat("r", n) }, "big")
+	slowRuns := 0
+	service.AddFunction(func(ms int) int {
+		slowRuns++
+		time.Sleep(time.Duration(ms) * time.Millisecond)
+		return ms
+	}, "slow")
 	service.AddMissingMethod(func(name string, args []interface{}) ([]interface{}, error) {
 		if name == "missboom" {
 			panic("missing-method boom")
@@ -137,7 +161,11 @@ func scenC11(r *Run) {
 	}
 	fx := NewFixture(r, kind, service)
 	if pool {
-		fx.SetPool(&simPool{sim: sim})
+		if r.PlanBool(2) {
+			fx.SetPool(newBoundedPool(sim, 2)) // two workers: a stuck task is not free
+		} else {
+			fx.SetPool(&simPool{sim: sim})
+		}
 	}
 	c1, c2 := fx.NewClient(), fx.NewClient()
 	c1.Timeout, c2.Timeout = 5*time.Second, 5*time.Second
@@ -179,8 +207,10 @@ func scenC11(r *Run) {
 	sim.Task("poison", func() {
 		sim.Fault("poison")
 		switch poison {
-		case "fn-panic-string", "fn-panic-error", "fn-panic-int", "fn-panic-struct", "fn-panic-runtime", "fn-panic-nil":
-			k := map[string]int{"fn-panic-string": 0, "fn-panic-error": 1, "fn-panic-int": 2, "fn-panic-struct": 3, "fn-panic-runtime": 4, "fn-panic-nil": 5}[poison]
+		case "fn-panic-string", "fn-panic-error", "fn-panic-int", "fn-panic-struct", "fn-panic-runtime", "fn-panic-nil",
+			"fn-panic-typed-nil-error", "fn-panic-error-whose-Error-panics", "fn-panic-stringer-that-panics":
+			k := map[string]int{"fn-panic-string": 0, "fn-panic-error": 1, "fn-panic-int": 2, "fn-panic-struct": 3, "fn-panic-runtime": 4, "fn-panic-nil": 5,
+				"fn-panic-typed-nil-error": 6, "fn-panic-error-whose-Error-panics": 7, "fn-panic-stringer-that-panics": 8}[poison]
 			pz = invoke(c1, "poison", "boom", k)
 		case "timeout-wrapped-panic":
 			pz = invoke(c1, "poison", "boom", 0)
@@ -231,6 +261,31 @@ func scenC11(r *Run) {
 			}
 		case "raw-short-header", "raw-bad-crc", "raw-lying-length":
 			c11RawClientPoison(fx, poison, r)
+		case "raw-call-then-bad-frame", "raw-call-then-close":
+			// two calls are still executing on the connection when a fault ends it
+			if strings.HasPrefix(kind, "websocket") {
+				if c, err := wsDial(fx); err == nil {
+					c.WriteMessage(fws.BinaryMessage, append([]byte{0, 0, 0, 1}, []byte(`Cs4"slow"a1{i200;}z`)...))
+					c.WriteMessage(fws.BinaryMessage, append([]byte{0, 0, 0, 2}, []byte(`Cs4"slow"a1{i300;}z`)...))
+					time.Sleep(10 * time.Millisecond)
+					verifsim.ForceYield(-10)
+					c.UnderlyingConn().Close()
+				}
+				break
+			}
+			c := rawStream(fx)
+			c.Write(sockFrame(1, []byte(`Cs4"slow"a1{i200;}z`)))
+			c.Write(sockFrame(2, []byte(`Cs4"slow"a1{i300;}z`)))
+			time.Sleep(10 * time.Millisecond)
+			verifsim.ForceYield(-10)
+			if poison == "raw-call-then-bad-frame" {
+				bad := sockFrame(3, []byte("x"))
+				bad[0] ^= 0xff
+				c.Write(bad)
+				time.Sleep(10 * time.Millisecond)
+				verifsim.ForceYield(-11)
+			}
+			c.Close()
 		case "raw-ws-short-0", "raw-ws-short-3", "raw-ws-text":
 			c11RawWSPoison(fx, poison)
 		}
@@ -300,6 +355,54 @@ func scenC11(r *Run) {
 		r.Fail(cls("server-stopped-serving"), "after the fault a fresh client cannot call the service: %v %v", a3.res, a3.err)
 		return
 	}
+	// nothing that belonged to the faulty exchange may stay behind: with no call in
+	// flight, no per-request goroutine or pool task of the server is still alive
+	sim.Drive(func() bool { return false })
+	if sim.Failure() != nil {
+		return
+	}
+	var stuck []string
+	for _, n := range sim.LiveTasks("") {
+		o := r.Sites.TaskOrigin(n)
+		if strings.Contains(o, "go h.run") || (strings.HasPrefix(n, "pool") && sim.TaskState(n) == "blocked" && busyWorker(fx, n)) {
+			stuck = append(stuck, n+" ("+o+")")
+		}
+	}
+	if len(stuck) > 0 {
+		r.Fail(cls("request-goroutine-stuck"), "no call is in flight any more, yet these per-request tasks of the server never ended: %v", stuck)
+	}
+}
+
+// boundedPool is a worker pool with a fixed number of workers (simulated tasks).
+type boundedPool struct {
+	sim   *verifsim.Sim
+	queue chan func()
+	busy  map[string]bool
+}
+
+func newBoundedPool(sim *verifsim.Sim, n int) *boundedPool {
+	p := &boundedPool{sim: sim, queue: make(chan func(), 1024), busy: map[string]bool{}}
+	for i := 0; i < n; i++ {
+		name := fmt.Sprintf("pool-worker%d", i)
+		sim.Task(name, func() {
+			for f := range p.queue {
+				verifsim.ForceYield(-12)
+				p.busy[name] = true
+				f()
+				p.busy[name] = false
+			}
+		})
+	}
+	return p
+}
+
+func (p *boundedPool) Submit(f func()) { p.queue <- f }
+
+func busyWorker(fx *Fixture, name string) bool {
+	if bp, ok := fx.poolRef.(*boundedPool); ok {
+		return bp.busy[name]
+	}
+	return true
 }
 
 // c11RawClientPoison sends a malformed frame from a raw peer to the real handler.
